@@ -17,6 +17,9 @@ CLAIMED = {
  "C04": dict(text="Coq theorem by induction over all quantity trees whose unit factors/offsets are int/Fraction (an int factor other than 1 under a non-negative exponent): the delivered magnitude is exactly the rational value of ordinary arithmetic on base-unit values, operands in written order, as an int or reduced fraction (C04_exact, C04_integral_as_int); the stated consequences (x U to U, round trip, halving, distribution over + and scaling, affine offset units) proved on the specification. Float-factor units: partial — the model carries the ideal rational value and the implementation is compared within 1e-9 (C04_float_partial is correspondence only).",
              note="Trusted: Coq kernel; resolved units from the live registry; float rounding is not modelled (ideal rationals, tolerance 1e-9).",
              technique="Coq proof (induction over trees, exact rational arithmetic) + kernel-lane differential correspondence (exact lane and 1e-9 float lane)", ref="6/C04"),
+ "C09": dict(text="Coq theorems for ALL operands: numbers of any kind (exact comparison of rational values): trichotomy, <= = (< or ==), > / >= as operand reversal, != = 1 - ==, every result the number 0 or 1; the same for quantities of one dimension (and a number against a dimensionless quantity) through the quantity wrapper, equality = equality of base-unit magnitudes; lazy combinatorics compare as their eager values (uses C05's relation); instants via the microsecond count; `in` is 0/1 and 1 iff some element is equal. Correspondence: all ordered pairs within each comparable group of a 31+8+5+7 value pool x 6 operators (exhaustive) + membership through execute(): coherence relations on the implementation's own displayed results, exact-value oracle, and model predictions.",
+             note="Trusted: Coq kernel; Python's cross-type numeric comparison is exact (modelled as comparison of toQ); datetime comparison = comparison of microsecond counts (C17).",
+             technique="Coq proof (case analysis on Qcompare / Z order, reuse of C05 relation) + exhaustive-pool differential and metamorphic correspondence", ref="6/C09"),
 }
 PENDING = {}
 ALL = ["C%02d" % i for i in range(1, 21)]
